@@ -351,6 +351,80 @@ theorem c12_str_eq_spec_brace_free_values (cfg : Cfg) (hns : cfg.strict = false)
   | error e => rfl
   | ok p => rfl
 
+/-- The AST handed to the specification IS the template that was rendered (with `c12_parse_flatten` and `print_lex`):
+    whenever `parse` accepts a token list, the template it returns has non-nested blocks and flattens back to exactly
+    those tokens. -/
+theorem c12_parse_sound (ts : List Tok) (t : Tmpl) (h : parse ts = some t) :
+    flatten t = ts ∧ ∀ s ∈ t, s.wf = true :=
+  parse_sound ts t h
+
+/-- CORE, clause 1 for a template TEXT as the code receives it.  Let `s` be any text whose lexed tokens are well formed
+    and parse as a grammar template `t` (non-nested blocks), and let every registered text lex and parse likewise
+    (`lexReg cfg = tokReg reg`); nothing that can be spliced in contains `{`.  Then the string layer — the regex passes
+    over the TEXT — renders exactly the text of the one left-to-right expansion of `t`, or both render nothing.  No
+    hand-supplied AST: `t` is determined by `s` (`parse ∘ lex`), and `flatten t` prints back to `s`. -/
+theorem c12_str_eq_spec_on_strings (cfg : Cfg) (hns : cfg.strict = false) (ctx : Ctx) (h : StrOK cfg ctx)
+    (reg : SReg) (hlex : lexReg cfg = tokReg reg) (hregwf : ∀ n b, lookup n reg = some b → ∀ sg ∈ b, sg.wf = true)
+    (hreg : ∀ p ∈ cfg.templates, ∀ x ∈ lex cfg p.2, x.wfs cfg) (fuel : Nat) (s : Str) (t : Tmpl)
+    (hp : parse (lex cfg s) = some t) (hw : ∀ x ∈ lex cfg s, x.wfs cfg) :
+    printToks (flatten t) = s ∧
+    (translate cfg ctx fuel s).toOption.map (·.1) = (renderSpec cfg false reg ctx fuel t).toOption := by
+  obtain ⟨hfl, hwf⟩ := parse_sound _ _ hp
+  have hG : Grammar t := grammar_of_wfs h.sane t hwf (by rw [hfl]; exact hw)
+  have hGR : GrammarReg reg := by
+    intro n b hl
+    refine grammar_of_wfs h.sane b (hregwf n b hl) ?_
+    have h1 : lookup n (lexReg cfg) = some (flatten b) := by rw [hlex, lookup_tokReg, hl]; rfl
+    obtain ⟨k, hk⟩ := lookup_mem n (lexReg cfg) _ h1
+    simp only [lexReg, List.mem_map] at hk
+    obtain ⟨p, hpm, he⟩ := hk
+    simp only [Prod.mk.injEq] at he
+    rw [← he.2]
+    exact hreg p hpm
+  refine ⟨by rw [hfl, print_lex], ?_⟩
+  rw [c12_str_eq_tok_on_strings cfg ctx h hreg fuel s hw, hns, hlex, ← hfl,
+    ← c12_tok_eq_spec_brace_free_values cfg reg ctx h.toBF hGR fuel t hG]
+  cases renderTok cfg false (tokReg reg) ctx fuel (flatten t) with
+  | error e => rfl
+  | ok p => rfl
+
+/-- Missing variables are reported — string layer.  For every text with well-formed tokens: (a) strict mode: an unbound
+    `{{name}}` anywhere in the text makes the render fail with the missing-variable error; (b) non-strict mode: every
+    unbound `{{name}}` of the text is among the warnings. -/
+theorem c12_str_missing_reported (cfg : Cfg) (ctx : Ctx) (h : StrOK cfg ctx)
+    (hreg : ∀ p ∈ cfg.templates, ∀ t ∈ lex cfg p.2, t.wfs cfg) (fuel : Nat) (s : Str)
+    (hw : ∀ t ∈ lex cfg s, t.wfs cfg) (n : Str) (hn : Tok.var n ∈ lex cfg s) (hb : isBound ctx n = false) :
+    (cfg.strict = true → translate cfg ctx (fuel + 1) s = .error .value) ∧
+    (cfg.strict = false → ∀ txt w, translate cfg ctx (fuel + 1) s = .ok (txt, w) → n ∈ w) := by
+  have hE := c12_str_eq_tok_on_strings cfg ctx h hreg (fuel + 1) s hw
+  constructor
+  · intro hst
+    rw [hE, hst, renderTok_strict_missing cfg _ ctx fuel _ n hn hb]
+  · intro hns txt w hr
+    rw [hE, hns] at hr
+    cases hk : renderTok cfg false (lexReg cfg) ctx (fuel + 1) (lex cfg s) with
+    | error e => rw [hk] at hr; cases hr
+    | ok p =>
+      obtain ⟨o, w'⟩ := p
+      rw [hk] at hr
+      simp only [Except.ok.injEq, Prod.mk.injEq] at hr
+      rw [← hr.2]
+      exact renderTok_warns_static cfg _ ctx fuel _ o w' hk n hn hb
+
+/-- Unknown includes — string layer: the text `{{>name}}` with `name` a word that is not registered renders as the
+    explicit marker, in both modes, without warnings. -/
+theorem c12_str_unknown_include_marker (cfg : Cfg) (ctx : Ctx) (h : StrOK cfg ctx) (reg : Reg) (hreg : RegOK cfg reg)
+    (fuel : Nat) (n : Str) (hw : WordName cfg n) (hn : lookup n reg = none) :
+    translate cfg ctx (fuel + 1) (INCH ++ n ++ RR) = .ok (cfg.markerPre ++ n ++ cfg.markerSuf, []) := by
+  have hnl : NoLB n := mem_of_word_ne h.sane.toCfgSane hw
+  have hm := h.marker n hnl
+  have := c12_str_eq_tok_brace_free cfg ctx h reg hreg (fuel + 1) [.inc n] (by intro t ht; simp at ht; rw [ht]; exact hw)
+  rw [renderTok_unknown_include cfg cfg.strict reg ctx fuel n hn hm] at this
+  simp only [printToks, List.flatMap_cons, List.flatMap_nil, Tok.print, List.append_nil] at this
+  rw [this]
+  simp only [textTok]
+  split <;> simp_all [Tok.print]
+
 /-- Strict mode, string layer: a strict render that returns text returns the text of the one left-to-right expansion. -/
 theorem c12_str_strict_refines_spec (cfg : Cfg) (hst : cfg.strict = true) (ctx : Ctx) (h : StrOK cfg ctx)
     (reg : SReg) (hreg : GrammarReg reg) (hro : RegOK cfg (tokReg reg)) (fuel : Nat) (t : Tmpl) (ht : Grammar t)
@@ -468,6 +542,20 @@ example : (∀ p ∈ eCfgS.templates, ∀ t ∈ lex eCfgS p.2, t.wfs eCfgS) ∧ 
   simp only [eCfgS, tokReg, eReg, List.map, List.mem_cons, List.not_mem_nil, or_false] at hp
   subst hp
   exact wfs_all_of_bool (by decide)
+
+/-- hypotheses of `c12_str_eq_spec_on_strings` / `c12_str_missing_reported` on concrete data: the registered TEXTS lex to
+    the flattened registry, the top-level TEXT lexes and parses to `eTmpl` (every kind of construct), all tokens well
+    formed; `{{zz}}`… the text has unbound plain variables (`item`, `k`, `index` of the loop body) -/
+example : lexReg eCfgS = tokReg eReg ∧ (∀ n b, lookup n eReg = some b → ∀ sg ∈ b, sg.wf = true) ∧
+    parse (lex eCfgS (printToks (flatten eTmpl))) = some eTmpl ∧
+    (∀ x ∈ lex eCfgS (printToks (flatten eTmpl)), x.wfs eCfgS) ∧
+    Tok.var kItem ∈ lex eCfgS (printToks (flatten eTmpl)) ∧ isBound eCtx kItem = false := by
+  refine ⟨by decide, ?_, by decide, wfs_all_of_bool (by decide), by decide, by decide⟩
+  intro n b hl
+  simp only [eReg, lookup] at hl
+  split at hl
+  · cases hl; decide
+  · cases hl
 
 /-- the hypotheses of `c12_str_eq_spec_brace_free_values` hold for the template with every kind of construct, and the
     string layer renders `U` `p{{k}}0;` `qv1;` `<x{{zz}}>` `[?nope]` `dflt` -/
